@@ -151,7 +151,7 @@ def canon_table(t):
         "uniques": sorted(((u["name"] or ""), tuple(u["cols"])) for u in t["uniques"]),
         "checks": sorted(((k["name"] or ""), k["text"]) for k in t["checks"]),
         "fks": sorted(((f["name"] or ""), tuple(f["cols"]), f["rtable"], tuple(f["rcols"])) for f in t["fks"]),
-        "indexes": sorted((i["name"], tuple(i["cols"]), bool(i["unique"])) for i in t["indexes"]),
+        "indexes": sorted((i["name"], tuple(i["cols"]), bool(i["unique"]), bi.norm_where(i.get("where"))) for i in t["indexes"]),
         "rows": sorted(json.dumps([None if v is None else {k: v[k] for k in v if k in "irtbcv" or k == "cast"} for v in r], sort_keys=True)
                        for r in t["rows"]),
     }
@@ -201,11 +201,43 @@ def run_impl(case):
         db.close()
 
 
+def run_two_step(case, st):
+    """Two batches on one database.  Step 1 = `case` (a fault at the RENAME under durable statements: the original is
+    dropped, all rows live under the temporary name).  Step 2 = the migration is run again on that database: `st` =
+    {recreate_empty: an empty table is first re-created under the original name, copy_from: step 2 is given the
+    original Table (no reflection), fault, scope, tddl}.  Returns (r1, case2, r2); r2 is None when step 1 did not end
+    in the wanted state."""
+    db = bi.Db(case["table"], bg.PARENT_SQL, iso=case.get("iso", "default"))
+    try:
+        uni = bg.universe(case["table"], case["ops"])
+        r1 = bi.run_batch(db, case["ops"], recreate=case["recreate"], copy_from=case["copy_from"], fault=case["fault"],
+                          scope=case["scope"], universe=uni, tddl=case.get("tddl"))
+        orig0 = r1["before"]["orig"]
+        if r1["outcome"] == "ok" or r1["fresh"]["orig"] is not None or r1["fresh"]["tmp"] is None:
+            return r1, None, None
+        if st.get("recreate_empty"):
+            with db.engine.connect() as conn:
+                conn.exec_driver_sql(bi.create_table_sql(dict(orig0, rows=[])))
+                conn.commit()
+        case2 = new_case(case["table"], case["ops"], case["recreate"], dict(orig0, rows=[]) if st.get("copy_from") else False,
+                         st.get("fault"), st.get("scope", "none"), case.get("iso", "default"), st.get("tddl"))
+        case2["orig0"] = orig0
+        case2["two_step"] = {"step1": {k: case[k] for k in ("copy_from", "fault", "scope", "tddl")}, "step2": dict(st)}
+        r2 = bi.run_batch(db, case2["ops"], recreate=case2["recreate"], copy_from=case2["copy_from"], fault=case2["fault"],
+                          scope=case2["scope"], universe=uni, tddl=case2.get("tddl"))
+        return r1, case2, r2
+    finally:
+        db.close()
+
+
 def model_op(case, r):
     before = r["before"]["orig"]
+    cf = case["copy_from"] if isinstance(case["copy_from"], dict) else None
+    src = before or cf or case.get("orig0")
     return {
         "op": "batch.run",
         "table": case["table"]["name"],
+        "copy_from_schema": jtable(cf) if cf else None,
         "reflected": not case["copy_from"],
         "always": case["recreate"] == "always",
         "ops": [jop(o) for o in case["ops"]],
@@ -213,8 +245,8 @@ def model_op(case, r):
         "commitOnError": case["scope"] == "swallow",
         "mode": case.get("iso", "default"),
         "tddl": bool(case.get("tddl")),
-        "db": {"orig": jtable(before, ix_order_of(r["stmts"], before)), "tmp": None},
-        "convs": conv_table(before, case["ops"]),
+        "db": {"orig": jtable(before, ix_order_of(r["stmts"], before)) if before else None, "tmp": jtable(r["before"].get("tmp"))},
+        "convs": conv_table(src, case["ops"]) if src else [],
     }
 
 
@@ -235,10 +267,13 @@ def failed_early(stmts):
 
 
 def spec11_op(case, r, view="fresh"):
-    return {"op": "batch.spec11", "ops": [jop(o) for o in case["ops"]], "before": jtable(r["before"]["orig"]),
-            "early": failed_early(r["stmts"]),
+    # second step of a two-step scenario: the rows to be retrievable are those of the very first table (`orig0`);
+    # the early clauses (original untouched / temp table gone) speak about a single run and are not applied
+    before = case.get("orig0") or r["before"]["orig"]
+    return {"op": "batch.spec11", "ops": [jop(o) for o in case["ops"]], "before": jtable(before),
+            "early": False if case.get("orig0") else failed_early(r["stmts"]),
             "after": {"orig": jtable(r[view]["orig"]), "tmp": jtable(r[view]["tmp"])},
-            "convs": conv_table(r["before"]["orig"], case["ops"])}
+            "convs": conv_table(before, case["ops"])}
 
 
 def compare(case, r, m):
